@@ -671,6 +671,43 @@ def rebuilt_sessions(rng, tier, n=25, parse_back=False):
     return ss
 
 
+def reparsed_sessions(rng, tier, n=20):
+    """one string is two descriptions of one molecule when it is parsed twice: the graph of the first parse is canonicalized, then
+    edited in place by its owner, then the same string is parsed again and that graph canonicalized (a parser that hands out one
+    shared object per string would describe a different molecule the second time)"""
+    import checks_parse
+    ss = []
+    strings = [s for _, s in checks_parse.library_strings(rng, "quick")] if hasattr(checks_parse, "library_strings") else []
+    strings = [s for s in strings if isinstance(s, str) and "/" in s]
+    rng.shuffle(strings)
+    for i, s in enumerate(strings[:n if tier == "quick" else n * 6]):
+        S = Session(f"reparsed{i}")
+        S.ev.append({"op": "string", "sid": 1, "s": s})
+        p1 = S.parse(s, sid=1)
+        if not p1:
+            ss.append(S)
+            continue
+        c1 = S.canon(p1)
+        if c1:
+            S.ser(c1)
+        lp = S.objs[p1]
+        if lp.number_of_nodes() >= 2:
+            x, y = rng.sample(list(lp.nodes), 2)
+            if lp.has_edge(x, y):
+                lp.remove_edge(x, y)
+            else:
+                lp.add_edge(x, y, bond_type=1)
+                lp.edges[x, y][record.ETAG] = next(record._tagctr)
+            S.ev.append({"op": "mutate", "obj": p1, "g": record.project(lp), "newcls": 610000 + p1})
+        p2 = S.parse(s, sid=1)
+        if p2:
+            c2 = S.canon(p2)
+            if c2:
+                S.ser(c2)
+        ss.append(S)
+    return ss
+
+
 @check("C04")
 def c04(out, tier, rng):
     design_pipeline(out, tier)
@@ -682,6 +719,7 @@ def c04(out, tier, rng):
     ss += library_refined_sessions(rng, tier, raw_ser=False)
     ss += rebuilt_sessions(rng, tier)
     ss += hash_twin_sessions(rng, tier)
+    ss += reparsed_sessions(rng, tier)
     S = Session("solvent-box")
     o = S.input(gen.solvent_box(rng))
     for x in [o] + [S.derive(o, reorder_nodes(relabel(S.objs[o], p, rng), rng), p) for p in [gen.random_perm(rng, S.objs[o].number_of_nodes()) for _ in range(2 if tier == "quick" else 6)]]:
